@@ -283,6 +283,19 @@ fn explore(ctx: &mut Ctx) {
         }
     }
     ctx.exhaustive_part("every byte value b as both edges of {\"x\",\"\",\" x \"}, pattern [b]");
+    // one byte of every UTF-8 byte class (continuation, 2/3/4-byte lead, never-valid) as non-UTF-8 input and pattern
+    product(ctx, &gen::seqs(&[b'a', 0x80, 0xbf, 0xc3], if q { 5 } else { 7 }), &gen::seqs(&[b'a', 0x80, 0xbf, 0xc3], 2));
+    product(ctx, &gen::seqs(&[0xa9, 0xe0, 0xf0, 0xff], if q { 5 } else { 6 }), &gen::seqs(&[0xa9, 0xe0, 0xf0, 0xff], 2));
+    ctx.exhaustive_part("inputs over {a,0x80,0xBF,0xC3} and {0xA9,0xE0,0xF0,0xFF} (every UTF-8 byte class) x patterns len<=2");
+    // byte patterns that are not char-aligned in valid UTF-8 text: every byte prefix / suffix (1..=4 bytes) of the input
+    for h in gen::strings(&gen::TEXT4, if q { 4 } else { 5 }) {
+        let hb = h.as_bytes();
+        for w in 1..=4usize.min(hb.len()) {
+            eval(ctx, hb, &hb[..w]);
+            eval(ctx, hb, &hb[hb.len() - w..]);
+        }
+    }
+    ctx.exhaustive_part("UTF-8 inputs over {a,é,漢,😀} x their own byte prefixes / suffixes of 1..=4 bytes (char-aligned or not) as [u8] pattern");
     let b = |v: Vec<String>| v.into_iter().map(String::into_bytes).collect::<Vec<_>>();
     let text = ["a", "é", "漢", " "];
     product(ctx, &b(gen::strings(&text, if q { 5 } else { 6 })), &b(gen::strings(&text, 3)));
